@@ -114,6 +114,7 @@ type c10CaseCase struct {
 	Subj  string   `json:"subj"`
 	Whens []string `json:"whens"` // clause i lists Whens[2i], Whens[2i+1]
 	Else  bool     `json:"else,omitempty"`
+	Lit   bool     `json:"lit,omitempty"` // when values (and the subject) written as literals where they have one
 }
 
 var c10Case = hx.Define("c10.case", func(c *c10CaseCase, s *hx.Sub) *hx.Violation {
@@ -136,6 +137,13 @@ var c10Case = hx.Define("c10.case", func(c *c10CaseCase, s *hx.Sub) *hx.Violatio
 		n1, n2 := fmt.Sprintf("w%d", i), fmt.Sprintf("w%d", i+1)
 		if !get(n1, c.Whens[i]) || !get(n2, c.Whens[i+1]) {
 			return hx.V("harness-error", "bad when values")
+		}
+		if c.Lit {
+			for k, n := range []*string{&n1, &n2} {
+				if u := c01Index[c.Whens[i+k]]; litable(u.Spec) {
+					*n = hx.Lit(u.Spec).String()
+				}
+			}
 		}
 		fmt.Fprintf(&sb, "{%% when %s, %s %%}<W%d>", n1, n2, i/2)
 	}
@@ -268,7 +276,7 @@ func TestC10(t *testing.T) {
 		}
 	}
 
-	cs := c10Case.On(col, "exhaustive: case with subject and first when value ranging over all ordered pairs of the plain universe (other when values fixed), two clauses that both match (the first must win), with and without else. Oracle: first when clause listing a value equal (reference ==) to the subject, otherwise else, otherwise nothing; pairs whose equality the statement leaves open are counted as unspecified. Distinct by construction", true)
+	cs := c10Case.On(col, "exhaustive: case with subject and first when value ranging over all ordered pairs of the plain universe (other when values fixed), two clauses that both match (the first must win), with and without else, values bound to variables and written as literals (incl. quoted strings that contain the words or / and and commas). Oracle: first when clause listing a value equal (reference ==) to the subject, otherwise else, otherwise nothing; pairs whose equality the statement leaves open are counted as unspecified. Distinct by construction", true)
 	for _, a := range pu {
 		for _, b := range pu {
 			idx++
@@ -277,6 +285,9 @@ func TestC10(t *testing.T) {
 			}
 			cs.Run(&c10CaseCase{Subj: a.Name, Whens: []string{b.Name, "4KiB", a.Name, "nil"}, Else: idx%2 == 0})
 			cs.Run(&c10CaseCase{Subj: a.Name, Whens: []string{"4KiB", b.Name, b.Name, b.Name}, Else: idx%3 == 0})
+			if litable(b.Spec) {
+				cs.Run(&c10CaseCase{Subj: a.Name, Whens: []string{b.Name, `"now or never"`, a.Name, b.Name}, Else: idx%2 == 0, Lit: true})
+			}
 		}
 	}
 
